@@ -307,7 +307,7 @@ dgstrf (superlu_options_t *options, SuperMatrix *A,
 	    /* Determine the union of the row structure of the snode */
 	    if ( (*info = dsnode_dfs(jcol, kcol, asub, xa_begin, xa_end,
 				    xprune, marker, Glu)) != 0 )
-		return;
+		goto out_of_space;
 
             nextu    = xusub[jcol];
 	    nextlu   = xlusup[jcol];
@@ -317,7 +317,7 @@ dgstrf (superlu_options_t *options, SuperMatrix *A,
 	    nzlumax = Glu->nzlumax;
 	    while ( new_next > nzlumax ) {
 		if ( (*info = dLUMemXpand(jcol, nextlu, LUSUP, &nzlumax, Glu)) )
-		    return;
+		    goto out_of_space;
 	    }
     
 	    for (icol = jcol; icol<= kcol; icol++) {
@@ -373,17 +373,17 @@ dgstrf (superlu_options_t *options, SuperMatrix *A,
 
 	    	if ((*info = dcolumn_dfs(m, jj, perm_r, &nseg, &panel_lsub[k],
 					segrep, &repfnz[k], xprune, marker,
-					parent, xplore, Glu)) != 0) return;
+					parent, xplore, Glu)) != 0) goto out_of_space;
 
 	      	/* Numeric updates */
 	    	if ((*info = dcolumn_bmod(jj, (nseg - nseg1), &dense[k],
 					 tempv, &segrep[nseg1], &repfnz[k],
-					 jcol, Glu, stat)) != 0) return;
+					 jcol, Glu, stat)) != 0) goto out_of_space;
 		
 	        /* Copy the U-segments to ucol[*] */
 		if ((*info = dcopy_to_ucol(jj, nseg, segrep, &repfnz[k],
 					  perm_r, &dense[k], Glu)) != 0)
-		    return;
+		    goto out_of_space;
 
 	    	if ( (*info = dpivotL(jj, diag_pivot_thresh, &usepr, perm_r,
 				      iperm_r, iperm_c, &pivrow, Glu, stat)) )
@@ -465,5 +465,28 @@ dgstrf (superlu_options_t *options, SuperMatrix *A,
     if ( iperm_r_allocated ) SUPERLU_FREE (iperm_r);
     SUPERLU_FREE (iperm_c);
     SUPERLU_FREE (relax_end);
+
+    return;
+
+ out_of_space:
+    /* Factor storage could not be obtained: release what this call allocated.
+       L and U have not been created. */
+    dLUWorkFree(iwork, dwork, Glu);
+    SUPERLU_FREE (xplore);
+    SUPERLU_FREE (xprune);
+    if ( iperm_r_allocated ) SUPERLU_FREE (iperm_r);
+    SUPERLU_FREE (iperm_c);
+    SUPERLU_FREE (relax_end);
+    if ( Glu->MemModel == SYSTEM && fact != SamePattern_SameRowPerm ) {
+	SUPERLU_FREE (Glu->lusup);
+	SUPERLU_FREE (Glu->ucol);
+	SUPERLU_FREE (Glu->lsub);
+	SUPERLU_FREE (Glu->usub);
+	SUPERLU_FREE (Glu->xsup);
+	SUPERLU_FREE (Glu->supno);
+	SUPERLU_FREE (Glu->xlsub);
+	SUPERLU_FREE (Glu->xlusup);
+	SUPERLU_FREE (Glu->xusub);
+    }
 
 }
